@@ -11,7 +11,7 @@ ID = 'C13'
 RULE = ('explicit-state BFS over ALL histories of operations {IT full pass, EC get_event_counts, ER get_expected_rates, '
         'SC spatial_counts, MC magnitude_counts, NC n_cat, catalog N/S/M/PL/resampled-M/MLL tests} on real '
         'CatalogForecast objects, for 12 configurations (in-memory list | file store=True | file store=False) x '
-        '(magnitude filter off|on) x (spatial filter off|on) and 3 forecast contents; depth <= 3 (quick) / 5 (thorough) '
+        '(magnitude filter off|on) x (spatial filter off|on) and 3-4 forecast contents (one starting with an empty catalog and repeating empty catalogs); depth <= 3 (quick) / 5 (thorough) '
         'or until the canonical state set closes (fixpoint). State = canonical form of the real object (cursor, '
         'cache, counts, n_cat, apply_filters, expected rates, stored event arrays). Every transition is judged '
         'against the reference forecast (a list of once-filtered event lists) and against the same operation on a '
@@ -37,6 +37,8 @@ CONTENTS = {
     # in-region, in-magnitude-range events only; one empty catalog
     'A': [[ev(1, 0, 5.5), ev(2, 0, 6.5)], [], [ev(3, 3, 5.5)]],
     'C': [[ev(1, 1, 5.5)], [ev(2, 1, 5.5), ev(3, 2, 6.5), ev(4, 2, 6.5)]],
+    # the FIRST catalog is empty, and empty catalogs repeat
+    'E': [[], [ev(1, 0, 5.5)], [], [ev(2, 3, 6.5), ev(3, 3, 5.5)], []],
     # events below the minimum magnitude (need the magnitude filter)
     'Bm': [[ev(1, 0, 4.0), ev(2, 1, 5.5)], [ev(3, 2, 4.0)], [ev(4, 3, 6.5), ev(5, 3, 4.5)]],
     # events outside the region (need the spatial filter)
@@ -55,12 +57,12 @@ def region():
 
 def contents_for(fmag, fsp):
     if fmag and fsp:
-        return ['A', 'Bb', 'Bm']
+        return ['A', 'Bb', 'Bm', 'E']
     if fmag:
-        return ['A', 'Bm', 'C']
+        return ['A', 'Bm', 'C', 'E']
     if fsp:
-        return ['A', 'Bs', 'C']
-    return ['A', 'C']
+        return ['A', 'Bs', 'C', 'E']
+    return ['A', 'C', 'E']
 
 
 def cases(tier, seed):
